@@ -5,7 +5,7 @@ import json, os, random, re, shutil, sys, time
 sys.path.insert(0, os.path.dirname(os.path.abspath(__file__)))
 import vlib, fam
 
-CLAUSES = ["NoHang", "Result", "State", "Members", "StartOnce", "TermOnce", "TermReason", "StartMode", "MembersInOrder", "DepsFirst", "NoOrphan"]
+CLAUSES = ["NoHang", "UnloadRefused", "Result", "State", "Members", "StartOnce", "TermOnce", "TermReason", "StartMode", "MembersInOrder", "DepsFirst", "NoOrphan"]
 MODES = ["temp", "trans", "perm"]
 REASONS = ["normal", "shutdown", "abn", "kill"]
 
@@ -19,6 +19,7 @@ def histories(tier, rng):
     def S(m=""): return {"op": "start", "mode": m}
     def F(i, r): return {"op": "fault", "i": i, "reason": r}
     def F2(i, r, j, r2): return {"op": "fault2", "i": i, "reason": r, "j": j, "reason2": r2}
+    def SU(j): return {"op": "stopunload", "j": j}
     for mode in MODES:
         for n in (1, 2, 3):
             # every member x every reason, then the state must allow a restart
@@ -43,6 +44,11 @@ def histories(tier, rng):
                 for r2 in ("abn2", "normal", "shutdown"):
                     add(n, mode, 0, False, [L, S(), F2(1, r, n, r2), S(), ST, U])
                     add(n, mode, 0, False, [L, S(), F2(n, r, 1, r2), S(), SF])
+    # unload attempted while a stop is in progress
+    for mode in MODES:
+        for n in (1, 2, 3):
+            add(n, mode, 0, False, [L, S(), SU(n), S(), ST, U])
+            add(n, mode, 0, False, [L, S(), SU(1), U, L, S(), SF])
     add(2, "temp", 0, False, [S(), ST, U, L, U, L, S(), U, ST, U])
     for _ in range(40 if tier == "quick" else 1600):
         n = rng.choice([1, 2, 3, 4]); mode = rng.choice(MODES)
@@ -52,7 +58,8 @@ def histories(tier, rng):
             if c < 0.3: ops.append(S(rng.choice(["", "", "temp", "trans", "perm"])))
             elif c < 0.58: ops.append(F(rng.randint(1, n), rng.choice(REASONS)))
             elif c < 0.65: ops.append(F2(rng.randint(1, n), rng.choice(REASONS), rng.randint(1, n), rng.choice(["abn2", "normal", "shutdown"])))
-            elif c < 0.8: ops.append(ST)
+            elif c < 0.76: ops.append(ST)
+            elif c < 0.8: ops.append(SU(rng.randint(1, n)))
             elif c < 0.9: ops.append(SF)
             elif c < 0.95: ops.append(U)
             else: ops.append(L)
